@@ -386,6 +386,7 @@ LEVEL_TEXT = (
     'is exhaustive over the serialisation code paths, which the test suite '
     'samples with 3 recipes; it does not establish byte-identical '
     're-quantization.'
+    ' Update sequence -> export -> JSON -> load into a fresh manager resolves identically (sequences of up to three updates, string-valued configs included).'
 )
 LEVEL_NOTE = (
     'Trusted: CPython ast, the sa interpreter for the control fragment '
@@ -393,4 +394,4 @@ LEVEL_NOTE = (
     'model produced from a reloaded recipe (follows only together with C11 and '
     'C14).'
 )
-TECHNIQUE = 'ast-based writer/reader table agreement + finite-lattice path enumeration (static)'
+TECHNIQUE = 'ast-based writer/reader table agreement + finite-lattice path enumeration (field lattice; update -> export -> load round trip) (static)'
